@@ -35,6 +35,9 @@ class ReprNM(nodes.PlainNM):
     def __repr__(self):
         return getattr(self, "text", "ReprNM(%s)" % (self.name,))
 
+    def __str__(self):  # str(RenderTree) prints the repr of the nodes, not their str
+        return "str-of-%s\nsecond line" % (self.name,)
+
 
 def style_of(spec):
     if isinstance(spec, str):
@@ -196,6 +199,10 @@ def _rows_once(case, acc, tree, labels, cls):
     shape = rendered_shape(start, childiter, maxlevel)
     if decoded != shape:
         raise Violation("decode-back", "drawing decodes to %s, rendered sub-tree is %s" % (decoded, shape))
+    # positional argument form
+    pos = list(RenderTree(start, style, childiter, maxlevel))
+    if [(r.pre, r.fill, id(r.node)) for r in pos] != [(r.pre, r.fill, id(r.node)) for r in got]:
+        raise Violation("positional-arguments", "RenderTree(node, style, childiter, maxlevel) differs from the keyword form")
     # second iteration gives the same rows (RenderTree is re-iterable)
     again = list(rt)
     if [(r.pre, r.fill, id(r.node)) for r in again] != [(r.pre, r.fill, id(r.node)) for r in got]:
@@ -374,7 +381,7 @@ def random_cases(draw):
         return {"kind": "repr", "cls": draw(st.sampled_from(["Node", "AnyNode"])), "shape": shape, "sep": sep, "names": names, "attrs": attrs, "mutations": muts}
     shape = draw(strategies.tree_shapes(max_nodes=40, min_nodes=3))
     size = shapes.shape_size(forest.to_tuple(shape))
-    cls = draw(st.sampled_from(["Node", "AnyNode", "PlainNM", "ReprNM", "ReprNM"]))
+    cls = draw(st.sampled_from(["Node", "AnyNode", "PlainNM", "ReprNM", "ReprNM", "EqNode", "FalsyNode", "LenNode"]))
     case = {
         "kind": "rows",
         "shape": shape,
@@ -410,7 +417,7 @@ def _enum_cases(max_nodes, index, count):
             for style in ENUM_STYLES:
                 for childiter in ("list", "reversed", "sort", "filter", "genfilter"):
                     for maxlevel in [None, -1] + list(range(0, height + 3)):
-                        yield {"kind": "rows", "shape": forest.to_list(shape), "start": start, "style": style, "childiter": childiter, "maxlevel": maxlevel, "cls": "Node"}
+                        yield {"kind": "rows", "shape": forest.to_list(shape), "start": start, "style": style, "childiter": childiter, "maxlevel": maxlevel, "cls": ("Node", "EqNode", "LenNode", "Node", "FalsyNode")[k % 5]}
 
 
 def plan(tier, seed):
